@@ -3,8 +3,10 @@ package harness
 import (
 	"fmt"
 	"strings"
+	"syscall"
 
 	"seehuhn.de/go/postscript"
+	"seehuhn.de/go/postscript/type1"
 
 	"verif/dump"
 	"verif/gen"
@@ -165,76 +167,83 @@ type limitShape struct {
 	// "budget" accepts the operation budget (shapes that loop without growing).
 	want  []string
 	heavy bool
+	// surf selects a reader that sets its own budget (empty: Interpreter.Execute)
+	surf string
 }
 
 var limitShapes = []limitShape{
-	{"loop-push-int", "{ 1 } loop", []string{"stackoverflow"}, false},
-	{"loop-push-dup", "0 { dup } loop", []string{"stackoverflow"}, false},
-	{"loop-push-string", "{ (abc) } loop", []string{"stackoverflow"}, false},
-	{"loop-push-array", "{ [ 1 2 ] } loop", []string{"stackoverflow"}, false},
-	{"loop-push-mark", "{ mark } loop", []string{"stackoverflow"}, false},
-	{"loop-count", "{ count } loop", []string{"stackoverflow"}, false},
-	{"loop-copy", "1 2 3 { 3 copy } loop", []string{"stackoverflow"}, false},
-	{"loop-index", "7 { 0 index } loop", []string{"stackoverflow"}, false},
-	{"loop-currentdict", "{ currentdict } loop", []string{"stackoverflow"}, false},
-	{"loop-open-proc", "{ { } 0 pop } loop", []string{"stackoverflow"}, false},
-	{"repeat-push", "100000 { 1 } repeat", []string{"stackoverflow"}, false},
-	{"for-push", "0 1 1000000 { } for", []string{"stackoverflow"}, false},
-	{"forall-push", "70000 string { } forall", []string{"limitcheck", "stackoverflow"}, false},
-	{"forall-push-ok", "60000 string { } forall", []string{"stackoverflow"}, false},
-	{"toplevel-push", strings.Repeat("1 ", 3000), []string{"stackoverflow"}, false},
-	{"toplevel-open-brace", strings.Repeat("{ ", 3000), []string{"stackoverflow", "", "syntaxerror", "limitcheck"}, false},
-	{"toplevel-open-brace-push", strings.Repeat("{ 1 ", 3000), []string{"stackoverflow"}, false},
-	{"self-call-via-exec-name", "/f { /f load exec 1 } def f", []string{"execstackoverflow"}, false},
-	{"self-call-deep-then-push", "/f { f 1 } def /g { 1 f } def g", []string{"execstackoverflow"}, false},
-	{"three-cycle", "/a { b 1 } def /b { c 2 } def /c { a 3 } def a", []string{"execstackoverflow"}, false},
-	{"self-call-in-array-forall", "/f { [ 1 ] { pop f } forall 1 } def f", []string{"execstackoverflow"}, false},
-	{"self-call-userdict-begin", "/f { userdict begin f end } def f", []string{"dictstackoverflow", "execstackoverflow"}, false},
-	{"bound-self-call", "/f { f 1 } bind def f", []string{"execstackoverflow"}, false},
-	{"begin-loop", "{ currentdict begin } loop", []string{"dictstackoverflow"}, false},
-	{"begin-loop-newdict", "{ 1 dict begin } loop", []string{"dictstackoverflow"}, false},
-	{"begin-repeat", "1000 { userdict begin } repeat", []string{"dictstackoverflow"}, false},
-	{"begin-toplevel", strings.Repeat("userdict begin ", 100), []string{"dictstackoverflow"}, false},
-	{"begin-recursive", "/f { 1 dict begin f end } def f", []string{"dictstackoverflow", "execstackoverflow"}, false},
-	{"self-call-nontail", "/f { f 1 } def f", []string{"execstackoverflow"}, false},
-	{"self-call-tail", "/f { f } def f", []string{"execstackoverflow", "budget"}, false},
-	{"self-call-push-tail", "/f { 1 f } def f", []string{"execstackoverflow", "stackoverflow"}, false},
-	{"mutual-nontail", "/a { b pop } def /b { a 1 } def a", []string{"execstackoverflow"}, false},
-	{"mutual-tail", "/a { b } def /b { a } def a", []string{"execstackoverflow", "budget"}, false},
-	{"exec-chain", "{ dup exec 1 } dup exec", []string{"execstackoverflow"}, false},
-	{"exec-chain-tail", "{ dup exec } dup exec", []string{"execstackoverflow", "budget"}, false},
-	{"proc-in-itself", "/p 1 array def p 0 p cvx put /q p cvx def q", []string{"execstackoverflow", "stackoverflow", "budget", ""}, false},
-	{"array-in-itself-forall", "/a 1 array def a 0 a put a { } forall a 0 get 0 get 0 get pop", []string{""}, false},
-	{"nested-loops", "{ { { 1 } loop } loop } loop", []string{"stackoverflow"}, false},
-	{"nested-if", "/f { true { f 1 } if } def f", []string{"execstackoverflow"}, false},
-	{"nested-ifelse", "/f { false { } { f 1 } ifelse } def f", []string{"execstackoverflow"}, false},
-	{"nested-for", "/f { 0 1 0 { pop f 1 } for } def f", []string{"execstackoverflow"}, false},
-	{"nested-repeat", "/f { 1 { f 1 } repeat } def f", []string{"execstackoverflow"}, false},
-	{"nested-forall", "/f { [ 0 ] { pop f 1 } forall } def f", []string{"execstackoverflow"}, false},
-	{"handler-fails", "errordict /undefined { nosuchname2 } put nosuchname1", []string{"undefined"}, false},
-	{"handler-recurses", "errordict /undefined { nosuchname } put nosuchname", []string{"undefined"}, false},
-	{"handler-typecheck-loop", "errordict /typecheck { 1 (a) add } put 1 (a) add", []string{"typecheck"}, false},
-	{"handler-pushes", "errordict /undefined { 1 } put { nosuchname } loop", []string{""}, false},
-	{"handler-calls-proc", "/f { nosuchname 1 } def errordict /undefined { f } put f", []string{"undefined", "execstackoverflow"}, false},
-	{"handler-swallows-in-loop", "errordict /undefined { } put { nosuchname 1 } loop", []string{""}, false},
-	{"handler-stackoverflow", "errordict /stackoverflow { 1 } put { 1 } loop", []string{"stackoverflow"}, false},
-	{"handler-dictstackoverflow", "errordict /dictstackoverflow { userdict begin } put { userdict begin } loop", []string{"dictstackoverflow"}, false},
-	{"handler-execstackoverflow", "errordict /execstackoverflow { f } put /f { f 1 } def f", []string{"execstackoverflow"}, false},
-	{"array-huge", "9223372036854775807 array", []string{"limitcheck"}, false},
-	{"array-2^40", "1099511627776 array", []string{"limitcheck"}, false},
-	{"array-2^31", "2147483648 array", []string{"limitcheck"}, false},
-	{"string-huge", "9223372036854775807 string", []string{"limitcheck"}, false},
-	{"string-2^40", "1099511627776 string", []string{"limitcheck"}, false},
-	{"string-2^31", "2147483647 string", []string{"limitcheck"}, false},
-	{"dict-huge", "9223372036854775807 dict", []string{"limitcheck"}, false},
-	{"dict-2^40", "1099511627776 dict", []string{"limitcheck"}, false},
-	{"dict-2^31", "2147483647 dict", []string{"limitcheck"}, false},
-	{"array-loop-2^31", "{ 2147483647 array } loop", []string{"limitcheck"}, false},
-	{"matrix-loop", "{ matrix } loop", []string{"stackoverflow"}, false},
-	{"dict-put-growth", "/d 1 dict def 0 1 200000 { d exch dup put } for d length 0 eq", []string{"", "dictfull", "limitcheck"}, true},
-	{"string-loop-64k", "{ 65535 string } loop", []string{"stackoverflow", "limitcheck", "VMerror"}, true},
-	{"array-loop-64k", "{ 60000 array } loop", []string{"stackoverflow", "limitcheck", "VMerror"}, true},
-	{"eexec-nested", "currentfile eexec 00000000", []string{"", "ioerror", "syntaxerror", "undefined", "invalidaccess", "typecheck", "stackunderflow", "rangecheck", "stackoverflow", "other"}, false},
+	{"loop-push-int", "{ 1 } loop", []string{"stackoverflow"}, false, ""},
+	{"loop-push-dup", "0 { dup } loop", []string{"stackoverflow"}, false, ""},
+	{"loop-push-string", "{ (abc) } loop", []string{"stackoverflow"}, false, ""},
+	{"loop-push-array", "{ [ 1 2 ] } loop", []string{"stackoverflow"}, false, ""},
+	{"loop-push-mark", "{ mark } loop", []string{"stackoverflow"}, false, ""},
+	{"loop-count", "{ count } loop", []string{"stackoverflow"}, false, ""},
+	{"loop-copy", "1 2 3 { 3 copy } loop", []string{"stackoverflow"}, false, ""},
+	{"loop-index", "7 { 0 index } loop", []string{"stackoverflow"}, false, ""},
+	{"loop-currentdict", "{ currentdict } loop", []string{"stackoverflow"}, false, ""},
+	{"loop-open-proc", "{ { } 0 pop } loop", []string{"stackoverflow"}, false, ""},
+	{"repeat-push", "100000 { 1 } repeat", []string{"stackoverflow"}, false, ""},
+	{"for-push", "0 1 1000000 { } for", []string{"stackoverflow"}, false, ""},
+	{"forall-push", "70000 string { } forall", []string{"limitcheck", "stackoverflow"}, false, ""},
+	{"forall-push-ok", "60000 string { } forall", []string{"stackoverflow"}, false, ""},
+	{"toplevel-push", strings.Repeat("1 ", 3000), []string{"stackoverflow"}, false, ""},
+	{"toplevel-open-brace", strings.Repeat("{ ", 3000), []string{"stackoverflow", "", "syntaxerror", "limitcheck"}, false, ""},
+	{"toplevel-open-brace-push", strings.Repeat("{ 1 ", 3000), []string{"stackoverflow"}, false, ""},
+	{"self-call-via-exec-name", "/f { /f load exec 1 } def f", []string{"execstackoverflow"}, false, ""},
+	{"self-call-deep-then-push", "/f { f 1 } def /g { 1 f } def g", []string{"execstackoverflow"}, false, ""},
+	{"three-cycle", "/a { b 1 } def /b { c 2 } def /c { a 3 } def a", []string{"execstackoverflow"}, false, ""},
+	{"self-call-in-array-forall", "/f { [ 1 ] { pop f } forall 1 } def f", []string{"execstackoverflow"}, false, ""},
+	{"self-call-userdict-begin", "/f { userdict begin f end } def f", []string{"dictstackoverflow", "execstackoverflow"}, false, ""},
+	{"bound-self-call", "/f { f 1 } bind def f", []string{"execstackoverflow"}, false, ""},
+	{"begin-loop", "{ currentdict begin } loop", []string{"dictstackoverflow"}, false, ""},
+	{"begin-loop-newdict", "{ 1 dict begin } loop", []string{"dictstackoverflow"}, false, ""},
+	{"begin-repeat", "1000 { userdict begin } repeat", []string{"dictstackoverflow"}, false, ""},
+	{"begin-toplevel", strings.Repeat("userdict begin ", 100), []string{"dictstackoverflow"}, false, ""},
+	{"begin-recursive", "/f { 1 dict begin f end } def f", []string{"dictstackoverflow", "execstackoverflow"}, false, ""},
+	{"self-call-nontail", "/f { f 1 } def f", []string{"execstackoverflow"}, false, ""},
+	{"self-call-tail", "/f { f } def f", []string{"execstackoverflow", "budget"}, false, ""},
+	{"self-call-push-tail", "/f { 1 f } def f", []string{"execstackoverflow", "stackoverflow"}, false, ""},
+	{"mutual-nontail", "/a { b pop } def /b { a 1 } def a", []string{"execstackoverflow"}, false, ""},
+	{"mutual-tail", "/a { b } def /b { a } def a", []string{"execstackoverflow", "budget"}, false, ""},
+	{"exec-chain", "{ dup exec 1 } dup exec", []string{"execstackoverflow"}, false, ""},
+	{"exec-chain-tail", "{ dup exec } dup exec", []string{"execstackoverflow", "budget"}, false, ""},
+	{"proc-in-itself", "/p 1 array def p 0 p cvx put /q p cvx def q", []string{"execstackoverflow", "stackoverflow", "budget", ""}, false, ""},
+	{"array-in-itself-forall", "/a 1 array def a 0 a put a { } forall a 0 get 0 get 0 get pop", []string{""}, false, ""},
+	{"nested-loops", "{ { { 1 } loop } loop } loop", []string{"stackoverflow"}, false, ""},
+	{"nested-if", "/f { true { f 1 } if } def f", []string{"execstackoverflow"}, false, ""},
+	{"nested-ifelse", "/f { false { } { f 1 } ifelse } def f", []string{"execstackoverflow"}, false, ""},
+	{"nested-for", "/f { 0 1 0 { pop f 1 } for } def f", []string{"execstackoverflow"}, false, ""},
+	{"nested-repeat", "/f { 1 { f 1 } repeat } def f", []string{"execstackoverflow"}, false, ""},
+	{"nested-forall", "/f { [ 0 ] { pop f 1 } forall } def f", []string{"execstackoverflow"}, false, ""},
+	{"handler-fails", "errordict /undefined { nosuchname2 } put nosuchname1", []string{"undefined"}, false, ""},
+	{"handler-recurses", "errordict /undefined { nosuchname } put nosuchname", []string{"undefined"}, false, ""},
+	{"handler-typecheck-loop", "errordict /typecheck { 1 (a) add } put 1 (a) add", []string{"typecheck"}, false, ""},
+	{"handler-pushes", "errordict /undefined { 1 } put { nosuchname } loop", []string{""}, false, ""},
+	{"handler-calls-proc", "/f { nosuchname 1 } def errordict /undefined { f } put f", []string{"undefined", "execstackoverflow"}, false, ""},
+	{"handler-swallows-in-loop", "errordict /undefined { } put { nosuchname 1 } loop", []string{""}, false, ""},
+	{"handler-stackoverflow", "errordict /stackoverflow { 1 } put { 1 } loop", []string{"stackoverflow"}, false, ""},
+	{"handler-dictstackoverflow", "errordict /dictstackoverflow { userdict begin } put { userdict begin } loop", []string{"dictstackoverflow"}, false, ""},
+	{"handler-execstackoverflow", "errordict /execstackoverflow { f } put /f { f 1 } def f", []string{"execstackoverflow"}, false, ""},
+	{"array-huge", "9223372036854775807 array", []string{"limitcheck"}, false, ""},
+	{"array-2^40", "1099511627776 array", []string{"limitcheck"}, false, ""},
+	{"array-2^31", "2147483648 array", []string{"limitcheck"}, false, ""},
+	{"string-huge", "9223372036854775807 string", []string{"limitcheck"}, false, ""},
+	{"string-2^40", "1099511627776 string", []string{"limitcheck"}, false, ""},
+	{"string-2^31", "2147483647 string", []string{"limitcheck"}, false, ""},
+	{"dict-huge", "9223372036854775807 dict", []string{"limitcheck"}, false, ""},
+	{"dict-2^40", "1099511627776 dict", []string{"limitcheck"}, false, ""},
+	{"dict-2^31", "2147483647 dict", []string{"limitcheck"}, false, ""},
+	{"array-loop-2^31", "{ 2147483647 array } loop", []string{"limitcheck"}, false, ""},
+	{"matrix-loop", "{ matrix } loop", []string{"stackoverflow"}, false, ""},
+	{"dict-put-growth", "/d 1 dict def 0 1 200000 { d exch dup put } for d length 0 eq", []string{"", "dictfull", "limitcheck"}, true, ""},
+	{"string-loop-64k", "{ 65535 string } loop", []string{"stackoverflow", "limitcheck", "VMerror"}, true, ""},
+	{"array-loop-64k", "{ 60000 array } loop", []string{"stackoverflow", "limitcheck", "VMerror"}, true, ""},
+	{"type1.Read-runaway-loop", "%!\n{ } loop", []string{"budget"}, false, "type1.Read"},
+	{"type1.Read-runaway-recursion", "%!\n/f { f 1 } def f", []string{"execstackoverflow"}, false, "type1.Read"},
+	{"type1.Read-runaway-push", "%!\n{ 1 } loop", []string{"stackoverflow"}, false, "type1.Read"},
+	{"ReadCMap-runaway-loop", "{ 1 pop } loop", []string{"budget"}, false, "ReadCMap"},
+	{"ReadCMap-runaway-begin", "{ currentdict begin } loop", []string{"dictstackoverflow"}, false, "ReadCMap"},
+	{"eexec-nested", "currentfile eexec 00000000", []string{"", "ioerror", "syntaxerror", "undefined", "invalidaccess", "typecheck", "stackunderflow", "rangecheck", "stackoverflow", "other"}, false, ""},
 }
 
 func errName(err error) string {
@@ -310,7 +319,7 @@ func C11() *sim.Check {
 	}
 
 	limits := &sim.Batch{Name: "limits", Quick: len(limitShapes) * 2, Thorough: len(limitShapes) * 2, Enumerated: true,
-		Isolated: true, PerProc: 1, Workers: 4, ChildTimeout: 90e9, TimeoutIsViolation: true}
+		Isolated: true, PerProc: 1, Workers: 4, ChildTimeout: 25e9, TimeoutIsViolation: true}
 	limits.Run = func(c *sim.RunCtx) *sim.Outcome {
 		sh := limitShapes[c.Index/2]
 		if sh.heavy && c.Tier != "thorough" {
@@ -332,7 +341,19 @@ func C11() *sim.Check {
 			sch = sim.Schedule{Mode: sim.ChunkFixed, K: 7}
 		}
 		in := newInterp(budget)
-		ex := runPS(in, []byte(sh.src), sch, nil, sim.Fault{}, nil)
+		var ex *psExec
+		switch sh.surf {
+		case "type1.Read":
+			r := sim.NewSimReader([]byte(sh.src), sch, sim.Fault{}, nil)
+			_, err := type1.Read(r.Reader())
+			ex = &psExec{In: in, Err: err}
+		case "ReadCMap":
+			r := sim.NewSimReader([]byte(sh.src), sch, sim.Fault{}, nil)
+			_, err := postscript.ReadCMap(r.Reader())
+			ex = &psExec{In: in, Err: err}
+		default:
+			ex = runPS(in, []byte(sh.src), sch, nil, sim.Fault{}, nil)
+		}
 		c.St.Inc("limit_shapes_run")
 		c.St.Case(uint64(c.Index) | 2<<40)
 		c.St.Sample(map[string]any{"limit_shape": sh.name, "program": printable([]byte(sh.src)), "ended_with": dump.Err(ex.Err), "ops": in.NumOps, "stack": len(in.Stack), "dictstack": len(in.DictStack)})
@@ -352,6 +373,13 @@ func C11() *sim.Check {
 			return &sim.Outcome{Class: "limit-not-enforced", Key: "limits:" + sh.name, Detail: fmt.Sprintf("shape %s ended with %q (%s), acceptable: %q", sh.name, got, dump.Err(ex.Err), sh.want), Human: human}
 		}
 		return nil
+	}
+	// a shape whose growth is not cut off must not take the machine down: the
+	// child caps its own address space, so runaway allocation ends as a Go
+	// "out of memory" abort (classified below) instead of swapping the host
+	limits.ChildInit = func() {
+		lim := syscall.Rlimit{Cur: 6 << 30, Max: 6 << 30}
+		syscall.Setrlimit(syscall.RLIMIT_AS, &lim)
 	}
 	limits.ClassifyAbort = func(exit int, stderr string) *sim.Outcome {
 		if strings.Contains(stderr, "stack exceeds") || strings.Contains(stderr, "out of memory") || strings.Contains(stderr, "cannot allocate") {
@@ -475,7 +503,7 @@ func C11() *sim.Check {
 
 	return &sim.Check{
 		Prop: "C11", Harness: "h_budget", Level: "fault_enumeration",
-		Rule:     "sweep/dispatch: for a generated (or hand-written) program P with T=ops(P), the budget is set to every N in 1..T+2 (an injected interruption at logical tick N+1; sampled at 340 points when T>1500), each under one of three drawn delivery schedules and, for programs without stop/currentfile operators, cut into 1-4 Execute calls on one instance; N>=T must reproduce the unbudgeted state exactly, N<T must return ErrExecutionLimitExceeded with NumOps==N+1. distinct_nontrivial counts distinct (program hash, N) with N<T for programs containing a loop and a procedure call, plus one per enumerated limit shape and start-check case. limits: 60 growth shapes x 2 deliveries in child processes (a Go stack overflow kills only the child). startcheck: all 65536 two-byte prefixes and the 0/1-byte inputs x 3 deliveries (exhaustive), plus random programs with/without header x delivery x call split x faults inside the peek.",
+		Rule:     "sweep/dispatch: for a generated (or hand-written) program P with T=ops(P), the budget is set to every N in 1..T+2 (an injected interruption at logical tick N+1; sampled at 340 points when T>1500), each under one of three drawn delivery schedules and, for programs without stop/currentfile operators, cut into 1-4 Execute calls on one instance; N>=T must reproduce the unbudgeted state exactly, N<T must return ErrExecutionLimitExceeded with NumOps==N+1. distinct_nontrivial counts distinct (program hash, N) with N<T for programs containing a loop and a procedure call, plus one per enumerated limit shape and start-check case. limits: ~75 growth shapes (incl. runaway programs handed to type1.Read / ReadCMap, which set their own budgets) x 2 deliveries in child processes (a Go stack overflow kills only the child). startcheck: all 65536 two-byte prefixes and the 0/1-byte inputs x 3 deliveries (exhaustive), plus random programs with/without header x delivery x call split x faults inside the peek.",
 		Assume:   []string{"sub-clause 'limits' has no schedule in it: it is asserted on a fixed catalogue of growth shapes and reported separately (limit_shapes_run)", "stack caps used as oracle are deliberately generous (70000 / 1000) because the property names no number"},
 		RealStub: map[string]any{"real": []string{"postscript.Interpreter and everything below it (unmodified /repo code)"}, "stub": []string{"program source (SimReader with drawn chunking)", "the caller (budget values, Execute call splits)"}},
 		Batches:  []*sim.Batch{fixedB, start, limits, sweep, startH},
